@@ -179,9 +179,11 @@ func (s *Sess) Dial() *CConn {
 	return c
 }
 
+var readChunk = 1 << 16
+
 func (c *CConn) reader() {
 	buf := make([]byte, 0, 1<<16)
-	tmp := make([]byte, 1<<20)
+	tmp := make([]byte, readChunk) // (on the heap: a variable size; 64 KB on every reader's stack cost 256 KB of stack each)
 	for {
 		c.mu.Lock()
 		for c.paused {
